@@ -83,18 +83,28 @@ class Injected(Exception):
     pass
 
 
+def _all_subclasses(cls: type) -> list[type]:
+    out = []
+    for sub in cls.__subclasses__():
+        out.append(sub)
+        out += _all_subclasses(sub)
+    return out
+
+
 class Inject:
-    """make the n-th call of `owner.attr` raise (before or after running the original)"""
+    """make the n-th call of `owner.attr` raise (before or after running the original). For a class
+    the attribute is patched on the class and on every subclass that carries its own copy (the
+    `snooper_to_methods` decorator copies inherited methods into the parser subclasses)."""
 
     def __init__(self, owner, attr: str, n: int, exc: BaseException, after: bool = False) -> None:
         self.owner, self.attr, self.n, self.exc, self.after = owner, attr, n, exc, after
         self.calls = 0
         self.fired = False
+        self.saved: list[tuple[object, object]] = []
 
-    def __enter__(self):
-        self.orig = self.owner.__dict__[self.attr] if isinstance(self.owner, type) else getattr(self.owner, self.attr)
+    def _wrap(self, orig):
         inj = self
-        target = self.orig.__func__ if isinstance(self.orig, (classmethod, staticmethod)) else self.orig
+        target = orig.__func__ if isinstance(orig, (classmethod, staticmethod)) else orig
 
         def wrapper(*a, **k):
             inj.calls += 1
@@ -107,16 +117,26 @@ class Inject:
                 raise inj.exc
             return r
 
-        wrapped = wrapper
-        if isinstance(self.orig, classmethod):
-            wrapped = classmethod(wrapper)
-        elif isinstance(self.orig, staticmethod):
-            wrapped = staticmethod(wrapper)
-        setattr(self.owner, self.attr, wrapped)
+        if isinstance(orig, classmethod):
+            return classmethod(wrapper)
+        if isinstance(orig, staticmethod):
+            return staticmethod(wrapper)
+        return wrapper
+
+    def __enter__(self):
+        if isinstance(self.owner, type):
+            holders = [c for c in [self.owner, *_all_subclasses(self.owner)] if self.attr in c.__dict__]
+            for c in holders:
+                self.saved.append((c, c.__dict__[self.attr]))
+        else:
+            self.saved.append((self.owner, getattr(self.owner, self.attr)))
+        for holder, orig in self.saved:
+            setattr(holder, self.attr, self._wrap(orig))
         return self
 
     def __exit__(self, *exc):
-        setattr(self.owner, self.attr, self.orig)
+        for holder, orig in self.saved:
+            setattr(holder, self.attr, orig)
         return False
 
 
